@@ -577,7 +577,8 @@ def base_cases(draw, max_n=10):
             "r": draw(resist(len(edges), kind)), "x": None,
             "explicit_adjacency": draw(st.booleans()),
             "node": draw(st.integers(0, n - 1)),
-            "scale": draw(st.sampled_from([0.5, 2.0, 3.0, 0.125, 10.0]))}
+            "scale": draw(st.sampled_from([0.5, 2.0, 3.0, 0.125, 10.0, 1e-6, 1e-3,
+                                            1e3, 1e6, 1e8, 1e9]))}
     return case
 
 
@@ -627,7 +628,8 @@ def history_cases(draw):
     steps = []
     for _ in range(draw(st.integers(1, 5))):
         if draw(st.integers(0, 3)) == 0:
-            step = {"scale": draw(st.sampled_from([0.5, 2.0, 4.0, 0.25]))}
+            step = {"scale": draw(st.sampled_from([0.5, 2.0, 4.0, 0.25, 1e4,
+                                                     1e-4]))}
         else:
             kind = "float" if case["den"] == 0 else draw(
                 st.sampled_from(["dyadic", "uniform"]))
